@@ -78,6 +78,18 @@ def _convert_returns(stmts, ret: str) -> list:
             new.body = _convert_returns(s.body, ret)
             out.append(new)
             return out
+        if isinstance(s, ast.Try) and _has_return([s]) and not rest and not s.finalbody and not s.orelse:
+            # a try block in tail position: `return` inside it ends the function; the assignment takes its place
+            new = copy.copy(s)
+            new.body = _convert_returns(s.body, ret)
+            hs = []
+            for h in s.handlers:
+                h2 = copy.copy(h)
+                h2.body = _convert_returns(h.body, ret) if _has_return(h.body) else h.body
+                hs.append(h2)
+            new.handlers = hs
+            out.append(new)
+            return out
         if isinstance(s, (ast.For, ast.While, ast.Try, ast.AsyncFor, ast.AsyncWith)) and _has_return([s]):
             raise _NotInlinable("return inside a loop or try block")
         out.append(s)
@@ -132,12 +144,12 @@ class _Rename(ast.NodeTransformer):
 
 
 class Inliner:
-    def __init__(self, prog: Program, keep: set | None = None, only: set | None = None, max_depth: int = 2) -> None:
+    def __init__(self, prog: Program, keep: set | None = None, only: set | None = None, max_depth: int = 2, counter: int = 0) -> None:
         self.prog = prog
         self.keep = set(keep or ())
         self.only = set(only) if only else None
         self.max_depth = max_depth
-        self.counter = 0
+        self.counter = counter
         self.expanded: list[str] = []
 
     # ------------------------------------------------------------------ which calls
@@ -162,7 +174,7 @@ class Inliner:
             return None
         fn = h.node
         a = fn.args
-        if a.vararg or a.kwarg or any(isinstance(x, ast.Starred) for x in call.args) or any(k.arg is None for k in call.keywords):
+        if a.vararg or any(isinstance(x, ast.Starred) for x in call.args) or any(k.arg is None for k in call.keywords):
             return None
         if any(isinstance(x, (ast.Yield, ast.YieldFrom, ast.Await)) for x in ast.walk(fn)):
             return None
@@ -205,8 +217,15 @@ class Inliner:
             raise _NotInlinable("too many positional arguments")
         for p, v in zip(pos, args):
             binding[p] = v
+        named = {p.arg for p in [*a.posonlyargs, *a.args, *a.kwonlyargs]}
+        extra_kw = []
         for kw in call.keywords:
-            binding[kw.arg] = kw.value
+            if kw.arg in named:
+                binding[kw.arg] = kw.value
+            elif a.kwarg is not None:
+                extra_kw.append(kw)
+            else:
+                raise _NotInlinable("unexpected keyword")
         allpos = [p.arg for p in [*a.posonlyargs, *a.args]]
         for p, d in zip(allpos[len(allpos) - len(a.defaults) :], a.defaults):
             binding.setdefault(p, d)
@@ -216,6 +235,27 @@ class Inliner:
         params = [p.arg for p in [*a.posonlyargs, *a.args, *a.kwonlyargs]]
         if any(p not in binding for p in params):
             raise _NotInlinable("unbound parameter")
+        if a.kwarg is not None:
+            # **kwargs receives the surplus keywords; `f(**kwargs)` inside the helper becomes explicit keywords
+            kwname = a.kwarg.arg
+            binding[kwname] = ast.Dict(keys=[ast.Constant(value=k.arg) for k in extra_kw], values=[k.value for k in extra_kw])
+            params.append(kwname)
+
+            class _Spread(ast.NodeTransformer):
+                def visit_Call(self, n):
+                    n = self.generic_visit(n)
+                    if any(k.arg is None and isinstance(k.value, ast.Name) and k.value.id == kwname for k in n.keywords):
+                        kws = []
+                        for k in n.keywords:
+                            if k.arg is None and isinstance(k.value, ast.Name) and k.value.id == kwname:
+                                kws.extend(ast.keyword(arg=e.arg, value=copy.deepcopy(e.value)) for e in extra_kw)
+                            else:
+                                kws.append(k)
+                        n = copy.copy(n)
+                        n.keywords = kws
+                    return n
+
+            body = [_Spread().visit(s_) for s_ in body]
         ren = _Rename(locs, prefix)
         prelude = []
         for p in params:
@@ -346,8 +386,9 @@ def inlined(prog: Program, fi: FuncInfo, *, keep=(), only=None, max_depth: int =
         return _CACHE[key]
     cur = fi
     expanded: list[str] = []
+    counter = 0
     for _ in range(max_depth):
-        inl = Inliner(prog, set(keep) | {fi.name}, only, max_depth)
+        inl = Inliner(prog, set(keep) | {fi.name}, only, max_depth, counter)
         try:
             body = inl._block(cur, list(cur.node.body), [fi], 0)
         except RecursionError:
@@ -355,6 +396,7 @@ def inlined(prog: Program, fi: FuncInfo, *, keep=(), only=None, max_depth: int =
         if not inl.expanded:
             break
         expanded.extend(inl.expanded)
+        counter = inl.counter
         node = copy.copy(cur.node)
         node.body = body
         ast.fix_missing_locations(node)
